@@ -98,3 +98,5 @@ SPEC = dict(contracts=['c14_variant.h', 'c14_prop.h', 'c14_unit.h'], stubs=[], i
                           'vlib/cxx2c.py idiom map'],
             assumptions=['string blocks shorter than 16 bytes in the jobs that inspect string contents (set(const char*, len)) - labelled bounded',
                          'the HDF5 dataset behind a Property (resize/write/read) is not covered'])
+
+SPEC['assumptions'] = list(SPEC.get('assumptions', [])) + ['session 3: Property::unit - util::deblankString is a ghost function on abstract string ids; PropertyHDF5::deleteValues - the data set and its attributes are ghost counters']
